@@ -216,6 +216,36 @@ def rule_ioerr(ctx):
                         consumers.append('copy')
                 real = [x for x in consumers if x != 'drop']
                 ok = bool(real) and all(x in ('return', 'call:branch') for x in real)
+                if not ok and real and all(x in ('return', 'call:branch', 'call:map_err', 'call:map', 'call:and_then') for x in real):
+                    # error-preserving adaptors: the adapted Result must itself be returned / propagated
+                    def adapted_ok(loc, depth=0):
+                        outs = []
+                        for pt3, t3 in m.calls():
+                            c3 = t3.get('callee')
+                            if c3 and c3['name'] in ('map_err', 'map', 'and_then') and t3['args'] and t3['args'][0]['k'] in ('move', 'copy') \
+                                    and t3['args'][0]['p']['l'] == loc and not t3['args'][0]['p']['pr']:
+                                outs.append(t3['dest']['l'])
+                        if not outs:
+                            return False
+                        for d in outs:
+                            if d == 0:
+                                continue
+                            uses = []
+                            for pt4, role4, pl4, node4 in m.places():
+                                if pl4['l'] != d or role4 == 'write':
+                                    continue
+                                if node4['k'] == 'call':
+                                    uses.append('call:' + (node4['callee']['name'] if node4.get('callee') else '?'))
+                                elif node4['k'] == 'assign' and node4['p']['l'] == 0 and not node4['p']['pr'] and not pl4['pr']:
+                                    uses.append('return')
+                                elif node4['k'] != 'drop':
+                                    uses.append('other')
+                            if not uses or not all(u in ('return', 'call:branch') or
+                                                   (u in ('call:map_err', 'call:map', 'call:and_then') and depth < 2 and adapted_ok(d, depth + 1))
+                                                   for u in uses):
+                                return False
+                        return True
+                    ok = adapted_ok(L)
                 r.site('%s: result of `%s` -> %s' % (m.path, c['path'], sorted(set(consumers)) or ['dropped']), t['s'],
                        'ok' if ok else 'violation')
                 if not ok:
@@ -223,6 +253,53 @@ def rule_ioerr(ctx):
                                 'the io::Result of `%s` is %s instead of being returned or propagated with `?`: a failing writer is '
                                 'reported as success (and later writes continue)' % (c['path'], sorted(set(consumers)) or 'dropped'))
     # IOERR-SINK: bytes must go to the caller's writer itself; a local buffering adapter swallows the error of its
+    # partial writes: `Write::write` / `write_vectored` report how much was taken; the count must be looked at
+    for b in bodies:
+        scope = list(group_members(f, b))
+        for m in list(scope):
+            for pt, t in m.calls():
+                c = t.get('callee')
+                hb = f.body(c.get('resolved') or c['path']) if c else None
+                if hb is not None and hb.d['kind'] != 'Closure' and hb.name != 'to_writer' and hb not in scope \
+                        and any('Write' in (ty or '') or 'W' == (ty or '').lstrip('&mut ').strip() for ty in (t.get('arg_tys') or [])):
+                    scope += group_members(f, hb)
+        for m in scope:
+            for pt, t in m.calls():
+                c = t.get('callee')
+                if not c or c['name'] not in ('write', 'write_vectored') or not (c.get('trait') or '').endswith('io::Write'):
+                    continue
+                # the usize inside the Result: is it ever read?
+                used = False
+                work, seen = [t['dest']['l']], set()
+                while work and not used:
+                    L = work.pop()
+                    if L in seen:
+                        continue
+                    seen.add(L)
+                    for pt2, role, pl, node in m.places():
+                        if pl['l'] != L or role == 'write' or pt2 == pt:
+                            continue
+                        if node['k'] == 'call':
+                            nm = (node.get('callee') or {}).get('name')
+                            if nm in ('branch', 'map_err', 'from_residual', 'into', 'from'):
+                                work.append(node['dest']['l'])
+                            else:
+                                used = True
+                        elif node['k'] == 'assign':
+                            if node['r']['k'] == 'discr':
+                                continue
+                            dst = node['p']['l']
+                            if node['r']['k'] == 'use' and not node['p']['pr'] and dst != 0:
+                                work.append(dst)        # a plain copy / move: follow the value
+                            else:
+                                used = True             # arithmetic, comparison, stored into a place, returned ...
+                        elif node['k'] not in ('drop',):
+                            used = True
+                r.site('%s: the byte count returned by `%s` is used' % (m.path, c['name']), t['s'], 'ok' if used else 'violation')
+                if not used:
+                    r.violation('%s:%s:count-ignored' % (m.path, c['name']), t['s'], m.path,
+                                '`%s` may accept only part of the buffer; its byte count is discarded, so on a short write the rest of the '
+                                'content is silently lost and to_writer still returns Ok (use write_all)' % c['name'])
     # final flush (Drop discards it) unless an explicit, propagated flush post-dominates every write
     tr_source = anchors.trait_path(f, 'Source')
     WRITE_NAMES = {'to_writer', 'write_all', 'write', 'write_fmt', 'write_vectored', 'write_all_vectored'}
